@@ -8,12 +8,15 @@ import (
 	"sort"
 	"strings"
 	"sync"
+	"sync/atomic"
 	"time"
 
 	"golang.org/x/tools/go/packages"
 	"golang.org/x/tools/go/ssa"
 	"golang.org/x/tools/go/ssa/ssautil"
 )
+
+var initNanos, initSteps int64
 
 // ---------- loading ----------
 
@@ -71,6 +74,7 @@ func LoadEngine(lc LoadConfig) (*Engine, error) {
 	mainPath = e.mainPkg.Pkg.Path()
 	allowedPkgs[mainPath] = true
 	initPkgs[mainPath] = true
+	summarisable[mainPath+".IsEmail"] = true
 	e.computeVocab()
 	registerIntrinsics(e)
 	return e, nil
@@ -117,6 +121,9 @@ type PathResult struct {
 	Events      []Event
 	Notes       []string
 	OrderNondet bool
+	Fresh       map[*Term]bool
+	Prefs       map[*Term]string
+	EndModel    *Model
 }
 
 type JobResult struct {
@@ -134,7 +141,7 @@ func (e *Engine) newMachine(job *Job, trail []int, solver *Solver) *Machine {
 		pcSet: map[*Term]bool{}, trail: append([]int{}, trail...),
 		freshAtoms: map[*Term]bool{}, covered: map[*ssa.BasicBlock]struct{}{},
 		reached: map[string]bool{}, job: job, rng: map[string]int{},
-		inputs: map[string]Value{},
+		inputs: map[string]Value{}, prefs: map[*Term]string{},
 	}
 }
 
@@ -167,7 +174,10 @@ func (e *Engine) runPath(job *Job, trail []int, solver *Solver) (res *PathResult
 			}
 		}()
 		initFn := e.mainPkg.Func("init")
+		ti := time.Now()
 		m.callSSA(nil, 0, initFn, nil, nil)
+		atomic.AddInt64(&initNanos, int64(time.Since(ti)))
+		atomic.AddInt64(&initSteps, int64(m.steps))
 		h := e.mainPkg.Func(job.Harness)
 		if h == nil {
 			panic(abort("no harness function " + job.Harness))
@@ -194,6 +204,8 @@ func (e *Engine) runPath(job *Job, trail []int, solver *Solver) (res *PathResult
 	res.Events = m.events
 	res.Notes = m.notes
 	res.OrderNondet = m.orderNondet
+	res.Fresh = m.freshAtoms
+	res.Prefs = m.prefs
 	e.covMu.Lock()
 	for b := range m.covered {
 		e.coverage[b] = struct{}{}
